@@ -24,7 +24,7 @@ PROP = dict(
           'minimal width than the stored value (either direction), or the '
           'signed sum overflows, or lies within 2 of INT64_MIN/INT64_MAX; '
           'distinct by hash of (family, form, stored, slot, amount)'),
-    quick=dict(configs=['asan', 'rel'], cases=12000000, maxlen=120),
+    quick=dict(configs=['asan', 'rel'], cases=14000000, maxlen=120),
     thorough=dict(configs=['asan', 'rel'], cases=120000000, maxlen=120,
                   fuzz_s=60, setmax=1 << 23),
     required_classes=['tagged.nogrow.nofit', 'tagged.nogrow.shrank',
